@@ -132,9 +132,9 @@ def gen_cases(ck, tier):
     subj_all = subjects(5)
     subj_small = subjects(3)
     full_tok = 2                       # patterns of <= full_tok tokens: every subject of length <= 3, every init
-    rate3 = (1, 60) if quick else (1, 2)      # fraction of (pattern) kept for 3 / 4 token patterns
-    per_pat3, per_pat4 = (3, 2) if quick else (40, 12)
-    rate4 = (1, 900) if quick else (1, 12)
+    rate3 = (1, 12) if quick else (1, 1)      # fraction of (pattern) kept for 3 / 4 token patterns
+    per_pat3, per_pat4 = (6, 4) if quick else (40, 12)
+    rate4 = (1, 150) if quick else (1, 8)
     npat = {1: 0, 2: 0, 3: 0, 4: 0}
     for n in range(1, 5):
         for toks in itertools.product(TOKENS, repeat=n):
@@ -304,7 +304,7 @@ def compare(ck, case, G, O, stats):
 
 FN = {"F": "string.find", "M": "string.match", "GM": "string.gmatch", "GS": "string.gsub",
       "MS": "Pattern.MatchFromStart", "MM": "Pattern.Match", "B": "pattern.New"}
-THEOREMS = ["C15_machine_equiv_spec_partial", "C15_spec_match_is_real", "C15_masks_correct"]
+THEOREMS = ["C15_machine_equiv_spec_partial", "C15_masks_correct", "C15_machine_no_panic_refuted", "C15_gsub_*_refuted"]
 
 
 def evaluate(ck, gvh, oracle, cases, stats, report=True):
@@ -426,7 +426,8 @@ def cpu_clause(ck, gvh):
 def run(tier, seed):
     ck = vlib.Check("C15", tier, seed, level="proof")
     ok_obl = ck.obligations(PROP, clean=False)
-    gvh, err = ck.build_gvh(pkg="./cmd/gvh-pattern", name="gvh_pattern")
+    gvh, err = ck.build_gvh(pkg="./cmd/gvh-pattern", name="gvh_pattern" + ("_mut" if os.environ.get("VERIF_OVERLAY") else ""),
+                             overlay=os.environ.get("VERIF_OVERLAY"))   # overlay: mutation experiments only
     if gvh is None:
         ck.violation("harness does not build against /repo", {"kind": "build", "stderr": err[-3000:]}, no_input=True)
         return ck.finish("n/a", TRUSTED, [])
